@@ -1,3 +1,5 @@
 import EdzedProofs.Basic
 import EdzedProofs.Counter
+import EdzedProofs.Interval
+import EdzedProofs.IntervalText
 import EdzedProofs.Simulate
